@@ -57,7 +57,20 @@ UnauthAtLeastAuth(e) ==
   (A.enc /\ A.mode = "unauth" /\ e.cut \in DOMAIN authAt) =>
      \A n \in DOMAIN authAt[e.cut] : n \in FileNames(e) /\ LenOf(e, n) >= authAt[e.cut][n]
 
+\* C14: when flush() returned with P plaintext bytes of the block stream written, what had reached the destination
+\* is enough to recover every file byte appended so far (authenticated mode: every byte in completed chunks;
+\* with compression under encryption the chunk position is not known to the spec: unauthenticated mode only)
+FlushedRecoverable(e) ==
+  e.flushpos >= 0 =>
+    LET P == IF A.enc /\ A.mode = "auth"
+               THEN (IF A.comp THEN 0 ELSE A.CH * ((Max(e.flushpos, 1) - 1) \div A.CH))
+               ELSE e.flushpos IN
+    \A id \in Started(A, P) :
+       /\ A.sizes[NameOf(A, id)].n \in FileNames(e)
+       /\ LenOf(e, A.sizes[NameOf(A, id)].n) >= RecOf(A, id, P)
+
 Clauses(e) ==
+  (IF FlushedRecoverable(e) THEN {} ELSE {"FlushedRecoverable"}) \cup
   (IF NoPanic(e) THEN {} ELSE {"NoPanic"}) \cup
   (IF Opens(e) THEN {} ELSE {"Opens"}) \cup
   (IF NamesOriginal(e) THEN {} ELSE {"NamesOriginal"}) \cup
